@@ -134,7 +134,8 @@ static void vec_free(char **v) { if (!v) return; for (long i = 0; v[i]; i++) fre
 /* ------------------------------------------------------------------ sinks */
 struct acc { unsigned char *p; size_t n, cap; long recs; };
 static void acc_add(struct acc *a, const void *p, size_t n) { if (a->n + n + 1 > a->cap) { a->cap = (a->n + n + 1) * 2; a->p = realloc(a->p, a->cap); } memcpy(a->p + a->n, p, n); a->n += n; }
-static int sinks_on = 0, stdout_mode = 0; /* 1 pipe 2 file */
+static int sinks_on = 0, stdout_mode = 0, stderr_mode = 0; /* 1 pipe/sock 2 file */
+static char sock_base[200] = "sock", path_stderrf[3100];
 static int p_out[2] = {-1, -1}, p_err[2] = {-1, -1}, pty_m = -1, s_sock = -1, s_devlog = -1;
 static struct acc a_out, a_err, a_pty, a_sock, a_devlog; /* sockets: records separated as 4-byte len + data */
 static char path_log[3100], path_log2[3100], path_sock[3100], path_devlog[3100], path_stdoutf[3100];
@@ -167,9 +168,9 @@ int connect(int fd, const struct sockaddr *addr, socklen_t len) {
     }
     return (int)syscall(SYS_connect, fd, addr, len);
 }
-static void sinks_setup(const char *mode) {
+static void sinks_setup(const char *mode, const char *emode) {
     snprintf(path_log, sizeof path_log, "%s/log", W); snprintf(path_log2, sizeof path_log2, "%s/log2", W);
-    snprintf(path_sock, sizeof path_sock, "%s/sock", W); snprintf(path_devlog, sizeof path_devlog, "%s/devlog", W);
+    snprintf(path_sock, sizeof path_sock, "%s/%s", W, sock_base); snprintf(path_stderrf, sizeof path_stderrf, "%s/stderr.file", W); unlink(path_stderrf); snprintf(path_devlog, sizeof path_devlog, "%s/devlog", W);
     snprintf(path_stdoutf, sizeof path_stdoutf, "%s/stdout.file", W);
     unlink(path_log); unlink(path_log2); unlink(path_stdoutf);
     s_sock = bind_dgram(path_sock); s_devlog = bind_dgram(path_devlog); devlog_redirect = 1;
@@ -182,8 +183,11 @@ static void sinks_setup(const char *mode) {
     fcntl(pty_m, F_SETFL, O_NONBLOCK);
     /* keep the slave open (fd stays) so the pty does not hang up */
     if (!strcmp(mode, "pipe")) { pipe2(p_out, O_CLOEXEC); fcntl(p_out[0], F_SETFL, O_NONBLOCK); fcntl(p_out[1], F_SETPIPE_SZ, 1 << 20); dup2(p_out[1], 1); stdout_mode = 1; }
-    else if (!strcmp(mode, "file")) { int f = open(path_stdoutf, O_WRONLY | O_CREAT | O_TRUNC | O_APPEND, 0600); dup2(f, 1); close(f); stdout_mode = 2; }
-    pipe2(p_err, O_CLOEXEC); fcntl(p_err[0], F_SETFL, O_NONBLOCK); fcntl(p_err[1], F_SETPIPE_SZ, 1 << 20); dup2(p_err[1], 2);
+    else if (!strcmp(mode, "file")) { int f = open(path_stdoutf, O_WRONLY | O_CREAT | O_TRUNC, 0600); dup2(f, 1); close(f); stdout_mode = 2; }
+    else if (!strcmp(mode, "sock")) { socketpair(AF_UNIX, SOCK_STREAM | SOCK_CLOEXEC, 0, p_out); fcntl(p_out[0], F_SETFL, O_NONBLOCK); int sz = 4 << 20; setsockopt(p_out[1], SOL_SOCKET, SO_SNDBUF, &sz, sizeof sz); dup2(p_out[1], 1); stdout_mode = 1; }
+    if (!strcmp(emode, "pipe")) { pipe2(p_err, O_CLOEXEC); fcntl(p_err[0], F_SETFL, O_NONBLOCK); fcntl(p_err[1], F_SETPIPE_SZ, 1 << 20); dup2(p_err[1], 2); stderr_mode = 1; }
+    else if (!strcmp(emode, "file")) { int f = open(path_stderrf, O_WRONLY | O_CREAT | O_TRUNC, 0600); dup2(f, 2); close(f); stderr_mode = 2; }
+    else if (!strcmp(emode, "sock")) { socketpair(AF_UNIX, SOCK_STREAM | SOCK_CLOEXEC, 0, p_err); fcntl(p_err[0], F_SETFL, O_NONBLOCK); int sz = 4 << 20; setsockopt(p_err[1], SOL_SOCKET, SO_SNDBUF, &sz, sizeof sz); dup2(p_err[1], 2); stderr_mode = 1; }
     sinks_on = 1;
 }
 static void sinks_snapshot(const char *key) {
@@ -196,7 +200,9 @@ static void sinks_snapshot(const char *key) {
     b = slurp(path_log2, &n); out_bytes("log2", b ? b : (unsigned char *)"", n); out(","); free(b);
     if (stdout_mode == 2) { b = slurp(path_stdoutf, &n); out_bytes("stdout", b ? b : (unsigned char *)"", n); free(b); }
     else out_bytes("stdout", a_out.p ? a_out.p : (unsigned char *)"", a_out.n);
-    out(","); out_bytes("stderr", a_err.p ? a_err.p : (unsigned char *)"", a_err.n);
+    out(",");
+    if (stderr_mode == 2) { b = slurp(path_stderrf, &n); out_bytes("stderr", b ? b : (unsigned char *)"", n); free(b); }
+    else out_bytes("stderr", a_err.p ? a_err.p : (unsigned char *)"", a_err.n);
     out(","); out_bytes("tty", a_pty.p ? a_pty.p : (unsigned char *)"", a_pty.n);
     out(",\"sock_recs\":%ld,", a_sock.recs); out_bytes("sock", a_sock.p ? a_sock.p : (unsigned char *)"", a_sock.n);
     out(",\"devlog_recs\":%ld,", a_devlog.recs); out_bytes("devlog", a_devlog.p ? a_devlog.p : (unsigned char *)"", a_devlog.n);
@@ -285,7 +291,7 @@ static void do_call(char **tok, int ntok) {
     R.ret = atoi(tok[5]); R.err = atoi(tok[6]);
     R.path_ptr = path; R.path_copy = strdup(path); R.argv_ptr = argv; R.argv_copy = vec_copy(argv); R.envp_ptr = envp; R.envp_copy = vec_copy(envp);
     R.environ_ptr = environ; R.environ_copy = vec_copy(environ);
-    out("{\"call\":\"%s\",\"path_len\":%zu,\"argc\":%ld,\"envc\":%ld", tok[1], strlen(path), na, ne);
+    out("{\"call\":\"%s\",\"pid\":%d,\"path_len\":%zu,\"argc\":%ld,\"envc\":%ld", tok[1], (int)getpid(), strlen(path), na, ne);
     if (sinks_on && !lean) { out(","); sinks_snapshot("before"); }
 #ifdef VERIF_HEAPTRACK
     live0 = ht_live; bytes0 = ht_bytes; ht_on = 1;
@@ -333,7 +339,17 @@ int main(int argc, char **argv) {
         if (!L || line[0] == '#') continue;
         char *tok[16]; memset(tok, 0, sizeof tok); int nt = 0; char *save = NULL; for (char *t = strtok_r(line, " ", &save); t && nt < 16; t = strtok_r(NULL, " ", &save)) tok[nt++] = t;
         if (!strcmp(tok[0], "W")) { strncpy(W, tok[1], sizeof W - 1); snprintf(verif_cfgpath, 4096, "%s/snoopy.ini", W); }
-        else if (!strcmp(tok[0], "sinks")) sinks_setup(nt > 1 ? tok[1] : "pipe");
+        else if (!strcmp(tok[0], "sinks")) sinks_setup(nt > 1 ? tok[1] : "pipe", nt > 2 ? tok[2] : "pipe");
+        else if (!strcmp(tok[0], "resetsinks")) {
+            drain_fd(p_out[0], &a_out); drain_fd(p_err[0], &a_err); drain_fd(pty_m, &a_pty); drain_sock(s_sock, &a_sock); drain_sock(s_devlog, &a_devlog);
+            a_out.n = a_err.n = a_pty.n = a_sock.n = a_devlog.n = 0; a_sock.recs = a_devlog.recs = 0; lean_log_off = lean_devlog_off = lean_sock_off = 0;
+            unlink(path_log); unlink(path_log2);
+            if (stdout_mode == 2) { if (ftruncate(1, 0)) {} lseek(1, 0, SEEK_SET); }
+            if (stderr_mode == 2) { if (ftruncate(2, 0)) {} lseek(2, 0, SEEK_SET); }
+        }
+        else if (!strcmp(tok[0], "sockbase")) { strncpy(sock_base, tok[1], sizeof sock_base - 1); }
+        else if (!strcmp(tok[0], "poke")) { /* what the exec'ed image would do next: write to its stdout and stderr */ if (write(1, "<O>", 3) < 0) {} if (write(2, "<E>", 3) < 0) {} }
+        else if (!strcmp(tok[0], "snap")) { out("{\"snap\":1,"); sinks_snapshot("now"); out("}\n"); }
         else if (!strcmp(tok[0], "cfg")) write_cfg(nt > 1 ? tok[1] : "h");
         else if (!strcmp(tok[0], "cfgnone")) { char p[3100]; snprintf(p, sizeof p, "%s/snoopy.ini", W); rmdir(p); unlink(p); }
         else if (!strcmp(tok[0], "cfgdir")) { char p[3100]; snprintf(p, sizeof p, "%s/snoopy.ini", W); unlink(p); mkdir(p, 0755); }
